@@ -992,9 +992,9 @@ theorem indexerL_rel {lo hi : Lim} (h : Lim.le lo hi) (c : ECfg) {r r' : ObjL} (
   | lazy hs => exact RelR.err (.base .noFunction)
   | ordered hs => exact RelR.err (.base .noFunction)
 
-theorem memberVL_rel {lo hi : Lim} (h : Lim.le lo hi) (c : ECfg) (name : Name) (x : Value) :
-    RelR Eq (memberVL c lo name x) (memberVL c hi name x) := by
-  unfold memberVL
+theorem memberVL_rel_flat {lo hi : Lim} (h : Lim.le lo hi) (c : ECfg) (name : Name) (x : Value) :
+    RelR Eq (memberFlatL c lo name x) (memberFlatL c hi name x) := by
+  unfold memberFlatL
   have h1 : RelR Eq
       (match Eval.memberV name x with
         | .error .unknownFunction => (do EvalLimits.measure lo (sizeofV c x); .error (.base .unknownFunction) : RL Value)
@@ -1007,6 +1007,60 @@ theorem memberVL_rel {lo hi : Lim} (h : Lim.le lo hi) (c : ECfg) (name : Name) (
     · exact withConv_rel (measure_rel h _)
   apply RelR.bind h1; intro v v' hv; subst hv
   exact RelR.bind (measure_rel h _) (fun _ _ _ => RelR.ok rfl)
+
+/-- the tail of a nested projection: stored as data, measured as the result of the call -/
+theorem memberV_store_rel {lo hi : Lim} (h : Lim.le lo hi) (c : ECfg) {s s' : VL × Option LErr} (hs : RelS s s') :
+    RelR Eq
+      (do let v ← toVL (ObjL.lazy s.1 s.2); EvalLimits.measure lo (sizeofV c v); pure v)
+      (do let v ← toVL (ObjL.lazy s'.1 s'.2); EvalLimits.measure hi (sizeofV c v); pure v) := by
+  apply RelR.bind (toVL_rel (RelO.lazy (xs := s.1) (e := s.2) (ys := s'.1) (e' := s'.2) hs)); intro v v' hv; subst hv
+  exact RelR.bind (measure_rel h _) (fun _ _ _ => RelR.ok rfl)
+
+theorem memberVLs_tot (c : ECfg) (L : Lim) (name : Name) (l : VL) : Tot (memberVLs c L name l) := by
+  rw [memberVLs_eq]; exact mapL_tot _ _ _
+
+mutual
+theorem memberVL_rel {lo hi : Lim} (h : Lim.le lo hi) (c : ECfg) (name : Name) :
+    ∀ x : Value, RelR Eq (memberVL c lo name x) (memberVL c hi name x)
+  | .tuple l => by
+    rw [memberVL, memberVL]
+    apply RelR.bind (measure_rel h _); intro _ _ _
+    apply RelR.bind (limitLen_rel h _); intro _ _ _
+    apply RelR.bind (memberVLs_rel h c name l); intro s s' hs
+    exact memberV_store_rel h c hs
+  | .list l => by
+    rw [memberVL, memberVL]
+    apply RelR.bind (measure_rel h _); intro _ _ _
+    apply RelR.bind (limitLen_rel h _); intro _ _ _
+    apply RelR.bind (memberVLs_rel h c name l); intro s s' hs
+    exact memberV_store_rel h c hs
+  | .iter l => by
+    rw [memberVL, memberVL]
+    apply RelR.bind (measure_rel h _); intro _ _ _
+    apply RelR.bind (memberVLs_rel h c name l); intro s s' hs
+    exact memberV_store_rel h c (limitLazy_rel h hs)
+  | .null => by rw [memberVL, memberVL]; exact memberVL_rel_flat h c name _
+  | .bool _ => by rw [memberVL, memberVL]; exact memberVL_rel_flat h c name _
+  | .int _ => by rw [memberVL, memberVL]; exact memberVL_rel_flat h c name _
+  | .flt _ => by rw [memberVL, memberVL]; exact memberVL_rel_flat h c name _
+  | .str _ => by rw [memberVL, memberVL]; exact memberVL_rel_flat h c name _
+  | .dict _ => by rw [memberVL, memberVL]; exact memberVL_rel_flat h c name _
+  | .set _ => by rw [memberVL, memberVL]; exact memberVL_rel_flat h c name _
+  | .host _ => by rw [memberVL, memberVL]; exact memberVL_rel_flat h c name _
+theorem memberVLs_rel {lo hi : Lim} (h : Lim.le lo hi) (c : ECfg) (name : Name) :
+    ∀ l : VL, RelR RelS (memberVLs c lo name l) (memberVLs c hi name l)
+  | [] => by rw [memberVLs, memberVLs]; exact RelR.ok (RelS.refl _)
+  | x :: xs => by
+    rw [memberVLs, memberVLs]
+    apply RelR.bind (RelR.capture (memberVL_rel h c name x)); intro a b hab
+    rcases hab with ⟨el, rfl, hl⟩ | ⟨el, rfl, rfl⟩ | ⟨a', b', rfl, rfl, rfl⟩
+    · apply RelR.cutTot hl
+      cases b with
+      | error er => exact Tot.pure _
+      | ok v => exact Tot.bind (memberVLs_tot c hi name xs) (fun _ => Tot.pure _)
+    · exact RelR.ok (RelS.refl _)
+    · exact RelR.bind (memberVLs_rel h c name xs) (fun r r' hr => RelR.ok (RelS.cons a' hr))
+end
 
 theorem memberOfL_iter {lo hi : Lim} (h : Lim.le lo hi) (c : ECfg) (name : Name) {r r' : ObjL} (hr : RelO r r') :
     RelR RelO
@@ -1030,6 +1084,7 @@ theorem memberOfL_rel {lo hi : Lim} (h : Lim.le lo hi) (c : ECfg) (name : Name) 
     split
     · apply RelR.bind (measure_rel h _); intro _ _ _
       exact RelR.refl RelO.refl _
+    · exact RelR.ood _
     · split
       · exact memberOfL_iter h c name (RelO.refl _)
       · exact RelR.bind (measure_rel h _) (fun _ _ _ => RelR.err _)
